@@ -112,6 +112,16 @@ def run_batch(ctx, n, with_model=True):
                 if out != {"e": "MissingField"}:
                     ctx.violation(f"missing declared field {f!r} is not reported: {json.dumps(out)[:80]} for {text[:160]}",
                                   {"text": text, "env": common.enc_env(env3), "missing": f, "impl": out})
+                # … also when extra keyword arguments LOOK like the missing field (other letter case, surrounding underscore,
+                # a trailing digit, the name in a mapping): an extra argument never stands in for a declared one
+                for alias in {f.upper(), f.capitalize(), f.swapcase(), f.lower(), "_" + f, f + "_", f + "1", " " + f} - {f} - set(env3):
+                    env4 = dict(env3, **{alias: env[f]})
+                    out4 = common.outcome_of(lambda: ev(**env4))
+                    ctx.count("transform:missing field with look-alike extra")
+                    if out4 != {"e": "MissingField"}:
+                        ctx.violation(f"missing declared field {f!r} is not reported when an extra argument {alias!r} is present: {json.dumps(out4)[:80]} for {text[:140]}",
+                                      {"text": text, "env": common.enc_env(env4), "missing": f, "alias": alias, "impl": out4})
+                        break
         # converse: the result varies across salts and splitter values (measured over a value stream)
         if prog.splitters and len(prog.returns()[0][1]) > 1:
             vals = set()
